@@ -36,11 +36,11 @@ MANIFEST = dict(
     design_ref="DESIGN.md §6 C19; design/misc.md",
     note="Trusted: Coq kernel + vm_compute; the hand model coq/theories/Time/Model.v with jiff's documented limits "
          "(Timestamp -377705023201 s ..= 253402207200.999999999 s, Span seconds <= 631107417600) as constants, "
-         "validated at the edges by the correspondence check.",
+         "taken from the implementation on every run (Gen/TimeLimits.v) and validated at the edges by the correspondence check.",
     technique="Coq proof over an executable integer model + model/implementation correspondence by vm_compute + metamorphic oracle",
 )
 
-THEOREMS = ["C19_add_sub", "C19_range_ok", "C19_range_err", "C19_duration_err", "C19_tz", "C19_tz_arith",
+THEOREMS = ["C19_add_sub", "C19_range_ok", "C19_range_err", "C19_duration_err", "C19_limits_sane", "C19_tz", "C19_tz_arith",
             "C19_zoned_add_sub"]
 
 TS_MIN_S = -377705023201
@@ -119,12 +119,36 @@ def rand_seconds(rng):
     return float(rng.choice([-1, 1]) * rng.randrange(0, 10 ** rng.randrange(1, 12)))
 
 
+LIMITS_HEADER = """(* GENERATED by tools/props/c19.py from the running implementation (hook numbat::verif::misc::datetime_limits:
+   jiff Timestamp::MIN / MAX and the largest argument Span::try_seconds accepts) — rewritten on every check run. *)
+From Coq Require Import ZArith.
+Local Open Scope Z_scope.
+"""
+
+
+def generate_limits(binary):
+    """reads the range constants from the implementation and writes Gen/TimeLimits.v (only when they changed)"""
+    o = common.run_harness(binary, "eval", ["@datetime-limits"], shards=1)[0]
+    if not o.startswith("LIMITS:"):
+        raise common.Broken("harness did not report the date-time limits: %r" % o)
+    lo, hi, hi_ns, span = [int(x) for x in o.split(":")[1:5]]
+    src = LIMITS_HEADER + "Definition gen_ts_min_s : Z := %d.\nDefinition gen_ts_max_s : Z := %d.\n" \
+        "Definition gen_ts_max_subsec_ns : Z := %d.\nDefinition gen_span_sec_max : Z := %d.\n" % (lo, hi, hi_ns, span)
+    path = os.path.join(common.COQ, "theories", "Gen", "TimeLimits.v")
+    if not os.path.exists(path) or open(path).read() != src:
+        open(path, "w").write(src)
+    return lo, hi, span
+
+
 def run(chk):
     binary, _ = common.build_harness()
+    global TS_MIN_S, TS_MAX_S, SPAN_MAX
+    TS_MIN_S, TS_MAX_S, SPAN_MAX = generate_limits(binary)       # the generators use the same constants
     proved = chk.prove("Props.C19", THEOREMS, ["theories/Props/C19.vo", "theories/Time/Exec.vo"])
     chk.trusted += [
         "model Time/Model.v is a hand port of vm.rs Op::AddToDateTime/SubFromDateTime/DiffDateTime and CallCallable TzConversion",
-        "jiff (calendar, tz database, Span/Zoned arithmetic, strptime/strftime) is not modelled; its range limits are constants of the model",
+        "jiff (calendar, tz database, Span/Zoned arithmetic, strptime/strftime incl. DST gaps/overlaps) is not modelled; its range "
+        "limits are read from the running implementation on every run (hook datetime_limits -> Gen/TimeLimits.v, table lemma C19_limits_sane)",
         "instants are built with from_unixtime_s and observed through Zoned::timestamp().as_nanosecond() (harness eval)",
         "the local time zone of the sessions is set explicitly (TZ: UTC, and Pacific/Chatham etc. for the zone-independence pass); "
         "there is no injectable clock, so now()/today() are not used by this check",
